@@ -427,6 +427,7 @@ func runStress(cfg stressCfg) *stressResult {
 	// broker forwards them while it winds that connection up. They are waited for (generously); one that
 	// does not come is reported by the exactly-once comparison below.
 	if cfg.LastWords && !cfg.CloseServer {
+		lwDeadline := time.Now().Add(10 * time.Second) // for all of them together
 		lastWords.Range(func(k, v interface{}) bool {
 			uid, seq := k.(uint64), v.(uint32)
 			for _, s := range subs {
@@ -442,7 +443,7 @@ func runStress(cfg stressCfg) *stressResult {
 						}
 					}
 					return false
-				}, 10*time.Second)
+				}, max(time.Until(lwDeadline), 50*time.Millisecond))
 			}
 			res.LastWords++
 			return true
